@@ -1475,6 +1475,8 @@ def is_int_ty(ty):
 
 
 def field_term(base, name):
+    if str(name) == 'dims' and T.is_app(base, 'shape_t') and len(base[2]) == 1:
+        return T.app('dims', base[2][0])          # tensor.shape().dims is tensor.dims()
     # with(base, set:f(v)) . f  ->  v
     if T.is_app(base, 'with'):
         for s in base[2][1:]:
